@@ -357,7 +357,13 @@ def build_wn(wntr, spec):
                 act = CT.ControlAction(link, "status", {"CLOSED": wntr.network.LinkStatus.Closed, "OPEN": wntr.network.LinkStatus.Open}[c["value"]])
             else:
                 act = CT.ControlAction(link, "setting", c["value"])
-            cond = CT.SimTimeCondition(wn, "=", int(c["time"]))
+            cd = c.get("cond")
+            if cd is None:
+                cond = CT.SimTimeCondition(wn, "=", int(c["time"]))
+            elif "other" in cd:   # post-solve: one junction's pressure against another's
+                cond = CT.RelativeCondition(wn.get_node(cd["node"]), "pressure", cd["rel"], wn.get_node(cd["other"]), "pressure")
+            else:                 # post-solve: a junction's pressure against a threshold
+                cond = CT.ValueCondition(wn.get_node(cd["node"]), "pressure", cd["rel"], cd["thr"])
             if c.get("kind") == "rule":
                 wn.add_control("setrule%d" % i, CT.Rule(cond, [act], name="setrule%d" % i))
             else:
